@@ -12,7 +12,9 @@ def check(ctx):
     # describe one position (C09.a: repositioning resets all of them; C10.b: reset totality)
     # ... and only if both hand the automaton the same view of the input: the rest of the input from the own offset, with
     # a clone of the own cursor (C04.c: the contract of next_match and of peek_n, each checked against the same reference)
-    cursor.analyze(ctx, RULES | {"C09.a", "C10.b", "C04.c"})
+    # (C10.a: the public iterator forwards next / peek_n / set_offset to the implementation as they are — a wrapper that
+    # latches, caches or filters makes the two disagree although the implementation's siblings agree)
+    cursor.analyze(ctx, RULES | {"C09.a", "C10.b", "C04.c", "C10.a"})
     # the mode switch a peek reports is decided by the same transition lookup next() uses
     from . import pC06
     pC06.transition_lookup_rules(ctx)
